@@ -152,6 +152,21 @@ class Ctx:
         f = self.lt if strict else self.le
         return s_and(f(d, bound), f(-d, bound))
 
+    def abs(self, x):
+        """|x| (forks on the sign of a symbolic value)."""
+        if isinstance(x, SymNum):
+            return x if bool(x >= 0) else -x
+        return abs(x)
+
+    def close(self, a, b, rel=F(1, 10**9)):
+        """|a - b| <= rel * max(|a|, |b|)  (for values that pass through double constants such as 1/1000.0)."""
+        if isna(a) or isna(b):
+            return False
+        if not self.sym:
+            return self.eq(a, b)
+        m = self.abs(a)
+        return self.within(a, b, m * rel, strict=False)
+
     def isnum(self, x):
         """a finite number (symbolic values are finite reals by construction)."""
         if isinstance(x, SymNum):
